@@ -2,7 +2,7 @@
 the round trip of datatype objects and trailing-empty trimming are run-time values and are declined)."""
 from .. import ctx as ctxmod
 from .. import tables
-from . import tablerules, codelemmas
+from . import tablerules, codelemmas, forwarding
 
 
 def run(chk):
@@ -15,6 +15,11 @@ def run(chk):
     codelemmas.encoder_order(chk, c, 'C01-N2')
     codelemmas.msh_pairing(chk, c, 'C01-M')
     codelemmas.verbatim_flow(chk, c, 'C01-V')
+    chk.rule('C01-F', 'parsers and encoders pass the element\'s own HL7 version to everything that interprets a datatype or a '
+                      'structure (otherwise messages of a non-default version are decoded / encoded with the default version\'s tables)')
+    n = forwarding.check_forwarding(chk, c, 'C01-F', ('version',), check_own=True,
+                                    only_callers=lambda fq: fq.split('.')[0] in ('core', 'parser', 'validation', 'factories'))
+    chk.floor('call sites taking a version', n, 100)
     chk.assume('datatype objects re-encode their own text (TM/DTM %f slicing, Decimal printing, strftime) -- run-time values, declined')
     chk.assume('trailing-empty trimming versus the canonical form is value dependent, declined')
     chk.exhaustive = True
